@@ -59,6 +59,15 @@ func (s reqScenario) hasValue(x httpref.Source) bool {
 
 const baseURL = "http://example.com/p/x"
 
+func (s reqScenario) listed(x httpref.Source) bool {
+	for _, y := range s.list {
+		if y == x {
+			return true
+		}
+	}
+	return false
+}
+
 func (s reqScenario) url() string {
 	q := url.Values{}
 	if s.has[httpref.Query] {
@@ -68,6 +77,11 @@ func (s reqScenario) url() string {
 	if s.ownKey {
 		_, text, _ := slotValue(s.t, slotOwnKey, s.jsonList, s.noB64)
 		q.Set("f", text)
+	}
+	if s.listed(httpref.Form) {
+		// decoy: a QUERY parameter named like the form key (api.form reads the posted form only)
+		_, text, _ := slotValue(s.t, slotDecoy, s.jsonList, s.noB64)
+		q.Set("fk", text)
 	}
 	if len(q) == 0 {
 		return baseURL
@@ -111,6 +125,11 @@ func (s reqScenario) body() []byte {
 			_, text, _ := slotValue(s.t, slotBody, s.jsonList, s.noB64)
 			q.Set("bk", text)
 		}
+		if s.listed(httpref.Query) {
+			// decoy: a FORM value named like the query key (api.query reads the URL only)
+			_, text, _ := slotValue(s.t, slotDecoy, s.jsonList, s.noB64)
+			q.Set("qk", text)
+		}
 		q.Set("other", "1")
 		return []byte(q.Encode())
 	}
@@ -138,6 +157,16 @@ func (s reqScenario) request() (*dhttp.HTTPRequest, []byte, error) {
 		// cookies cannot carry '"': lists always travel comma-separated there
 		_, text, _ := slotValue(s.t, slotCookie, false, s.noB64)
 		hr.AddCookie(&stdhttp.Cookie{Name: "ck", Value: text})
+	}
+	if s.listed(httpref.Header) && !s.t.quoted {
+		// decoy: a COOKIE named like the header key
+		_, text, _ := slotValue(s.t, slotDecoy, false, s.noB64)
+		hr.AddCookie(&stdhttp.Cookie{Name: "hk", Value: text})
+	}
+	if s.listed(httpref.Cookie) {
+		// decoy: a HEADER named like the cookie key
+		_, text, _ := slotValue(s.t, slotDecoy, s.jsonList, s.noB64)
+		hr.Header.Set("ck", text)
 	}
 	var params []dhttp.Param
 	if s.has[httpref.Path] {
@@ -184,6 +213,8 @@ func (s reqScenario) rawTextValue(text string) (v *tbin.Val, ok bool, judged boo
 		return nil, false, true // a URL / JSON document is not base64
 	case "i32", "i64", "double", "bool", "list_i32":
 		return nil, false, true
+	case "list_binary":
+		return nil, false, false
 	case "list_string":
 		if strings.HasPrefix(text, "{") || strings.HasPrefix(text, "[") {
 			return nil, false, false
